@@ -623,7 +623,9 @@ impl Exporter {
         if max == 0 {
             return vec![];
         }
-        let n = rng.usize(max.min(3) + 1);
+        // usually 0-3 bytes (alignment); one padding in six uses anything shorter than a record,
+        // up to 11 bytes (legal to receive: leftover bytes shorter than a record are padding)
+        let n = if max > 3 && rng.chance(1, 6) { 4 + rng.usize(max.min(11) - 3) } else { rng.usize(max.min(3) + 1) };
         if cfg.nonzero_padding && rng.chance(1, 4) {
             rng.bytes(n)
         } else {
